@@ -36,10 +36,10 @@ HEADER, TACTIC = c02.HEADER, c02.TACTIC
 QTOL = 2.83168e-6
 
 
-def common_spec(rng):
+def common_spec(rng, pumps=0.5, rules=0.3):
     """a network in the feature set both engines support"""
-    spec = netgen.gen_spec(rng, feat={"leaks": 0.0, "tank_leak": 0.0, "volcurve": 0.0, "pressure_controls": 0.0, "closed": 0.0, "rules": 0.3, "pdd": 0.4,
-                                      "valves": 0.45, "pumps": 0.5, "level_controls": 0.5, "time_controls": 0.6, "neg_elev": 0.2})
+    spec = netgen.gen_spec(rng, feat={"leaks": 0.0, "tank_leak": 0.0, "volcurve": 0.0, "pressure_controls": 0.0, "closed": 0.0, "rules": rules, "pdd": 0.4,
+                                      "valves": 0.45, "pumps": pumps, "level_controls": 0.5, "time_controls": 0.6, "neg_elev": 0.2})
     o = spec["options"]
     if o["hydraulic_timestep"] % o["rule_timestep"] != 0:
         o["rule_timestep"] = o["hydraulic_timestep"] // rng.choice([1, 2, 5])   # recorded finding: rule instants when the rule step does not divide the hydraulic step
@@ -364,7 +364,7 @@ def check(run, replay=None):
     try:
         while done < nets and tries < nets * 4:
             tries += 1
-            spec = common_spec(rng)
+            spec = common_spec(rng, 1.0, 0.0) if tries % 3 == 1 else common_spec(rng)      # every third: pumps at the sources, no rules (curve-edit family)
             if done < (10 if thorough else 3) or tries % 5 == 0:
                 directed_tcv(rng, spec)
             try:
@@ -443,6 +443,44 @@ def check(run, replay=None):
                 if d:
                     run.violation("result_depends_on_inp_units", "%s: %s of %s at t=%s: %s vs %s" % (d["what"], d["table"], d.get("name"), d.get("time"), d.get("a"), d.get("b")),
                                   input={"spec": spec, "first_difference": d})
+            # the model is edited after it has been simulated (a head pump's curve gets new points): both engines must follow the CURRENT curve
+            hp = [p_ for p_ in spec["pumps"] if p_["type"] == "HEAD"]
+            if hp and not spec["rules"] and rng.random() < 0.8:
+                import copy as _copy
+                spec2 = _copy.deepcopy(spec)
+                f_ = rng.choice([0.7, 0.8, 1.25])
+                for p_ in hp:
+                    npts = [[q_, round(h_ * f_, 3)] for q_, h_ in spec2["curves"][p_["param"]]["points"]]
+                    spec2["curves"][p_["param"]]["points"] = npts
+                    wn.get_curve(p_["param"]).points = [tuple(x) for x in npts]
+                wn.reset_initial_values()
+                rw2_all, ew2, ww2, _ = simrun.run(wntr, wn)
+                if simrun.converged(rw2_all, ew2, ww2) and all(t in rw2_all.node["head"].index for t in rep):
+                    try:
+                        wn.reset_initial_values()
+                        wn.options.time.report_timestep = spec["options"]["report_timestep"]
+                        re2, bad2 = run_epanet(wntr, wn, units[0], os.path.join(tmp, "e2"))
+                    except Exception as ex_:
+                        re2, bad2 = None, True
+                        run.count("curve edit: epanet run failed (%s)" % type(ex_).__name__)
+                    wn.options.time.report_timestep = "ALL"
+                    rw2 = Restricted(rw2_all, rep)
+                    if re2 is not None and not bad2 and not ((rw2.node["head"][jn] == 0) & (rw2.node["pressure"][jn] == 0)).values.any():
+                        skip2 = near_event_steps(spec2, [rw2, re2])
+                        st2 = stop_time(spec2, [rw2_all, re2])
+                        if st2 is not None:
+                            skip2 |= {t for t in rep if t >= st2}
+                        run.case({"net": done, "what": "engines after a pump curve edit"}, True, None)
+                        run.count("pump curve edited between runs")
+                        d = compare(spec2, rw2, re2, "WNTRSimulator vs EpanetSimulator(%s) after the pump curve was edited" % units[0], skip=skip2,
+                                    slack=event_slack(spec2, rw2_all))
+                        if d:
+                            run.violation("engines_disagree_" + d["table"], "%s: %s of %s at t=%s: %s vs %s" % (d["what"], d["table"], d.get("name"), d.get("time"), d.get("a"), d.get("b")),
+                                          input={"spec": spec2, "units": units[0], "curve_heads_scaled_by": f_, "edited_after_first_run": True, "first_difference": d})
+                # the rest of this iteration looks at the first run: restore the curve
+                for p_ in hp:
+                    wn.get_curve(p_["param"]).points = [tuple(x) for x in spec["curves"][p_["param"]]["points"]]
+                wn.reset_initial_values()
             # both reports solve the model's equations (interval cases) -------------------------------------------------------
             eu = units[0]
             for label, res, tolq in (("wntr", rw, "1 / 100000"), ("epanet", eres[eu], "1 / 2000")):
